@@ -4,6 +4,7 @@
     follow.  What is accepted becomes an [arch] handed to [de_world] (Multi.v).
     Definitions only. *)
 From Brood Require Export World Multi.
+From Brood Require Export Bytes.
 
 (** Identifier bytes -> shape: bit k of the registry is bit (k mod 8) of byte (k / 8). *)
 Definition byte_bit (b : N) (i : nat) : bool := N.testbit b (N.of_nat i).
@@ -15,16 +16,12 @@ Definition bytes_of_shape (sh : shape) : list N :=
   map (fun j => fold_right (fun i acc => (if nth (8 * j + i) sh false then N.shiftl 1 (N.of_nat i) else 0) + acc)%N 0%N (seq 0 8))
       (seq 0 ((length sh + 7) / 8)).
 
-(** The check as the code writes it: on the last byte, [bit != 0 && byte & (255 << bit) != 0]
-    with u8 arithmetic (the shifted mask is truncated to 8 bits). *)
+(** The check as the code writes it — regenerated from the source (Gen/Bytes.v): guard, which
+    byte, which shift amount, and the u8 test itself. *)
 Definition padding_rejected (n : nat) (bytes : list N) : bool :=
-  match n with
-  | 0 => false
-  | _ =>
-      let byte := nth ((n + 7) / 8 - 1) bytes 0%N in
-      let bit := n mod 8 in
-      negb (Nat.eqb bit 0) && negb (N.eqb (N.land byte (N.land (N.shiftl 255 (N.of_nat bit)) 255)) 0)
-  end.
+  if padding_guard (N.of_nat n)
+  then padding_reject (nth (N.to_nat (padding_byte_index (N.of_nat n))) bytes 0%N) (padding_bit (N.of_nat n))
+  else false.
 
 (** What the property needs: no bit at a position >= n is set. *)
 Definition padding_clear (n : nat) (bytes : list N) : bool :=
